@@ -341,7 +341,22 @@ def _init_worker(ev) -> None:
     _STOP = ev
 
 
+class WorkerFailed(Exception):
+    """a worker process could not run a chunk; carries plain text (an exception class of the code under test may not
+    survive pickling, and a result the pool cannot unpickle makes `imap` wait for ever)"""
+
+
 def _work(chunk: List[Tuple[str, str, Any]]) -> List[Tuple[str, str, Any, List[str], Dict[str, Any]]]:
+    try:
+        return _work_chunk(chunk)
+    except C.MachineryError as e:
+        raise C.MachineryError(str(e)) from None
+    except BaseException as e:  # noqa: BLE001
+        import traceback
+        raise WorkerFailed(f"{type(e).__name__}: {e}\n{traceback.format_exc()[-1500:]}") from None
+
+
+def _work_chunk(chunk: List[Tuple[str, str, Any]]) -> List[Tuple[str, str, Any, List[str], Dict[str, Any]]]:
     out = []
     for cid, kind, case in chunk:
         if _STOP is not None and _STOP.is_set():
@@ -570,8 +585,25 @@ def _with_pool(fn):
         os.environ.pop("VERIF_DL_DEFS_DIR", None)
 
 
+def _package_imports(res: C.Result) -> bool:
+    """`import pyrtma.data_logger` (it registers the formatters) and the harness's own set-up, in this process.  A tree
+    on which that raises has no data logger to check: reported as a tie that no longer checks (rule 2), not as a crash."""
+    try:
+        D.env()
+        return True
+    except C.MachineryError:
+        raise
+    except Exception as e:  # noqa: BLE001
+        msg = f"harness set-up: the data logger package cannot be imported / set up: {type(e).__name__}: {e}"[:300]
+        if msg not in res.broken:
+            res.broken.append(msg)
+        return False
+
+
 def run(res: C.Result, deep: bool):
     _init_extra(res)
+    if not _package_imports(res):
+        return
 
     # several recordings with one DataCollection object (real threads, real clock; sequential use, no race involved):
     # six items of kind M, run by the workers next to everything else
@@ -632,6 +664,8 @@ def run(res: C.Result, deep: bool):
 def search(res: C.Result):
     """rule 2: model and code disagree but no failing input yet: explore schedules around the diverging cases"""
     _init_extra(res)
+    if not _package_imports(res):
+        return
     # VERIF_SEARCH_SCALE (default 1): a mutation sweep that runs this search hundreds of times may shrink it; a verdict
     # "no failing input found" obtained with a scale below 1 is to be confirmed with the full search
     scale = float(os.environ.get("VERIF_SEARCH_SCALE") or 1.0)
